@@ -22,14 +22,14 @@ from .c04_params import (
 _BASE = dict(MaxRecs=2, MaxEtas=4, MaxEdits=1, MaxDiagItems=2, Sizes="{1, 2}", Scales='{"VC", "SC", "VR", "SR", "CH"}',
              DiagSd="{TRUE, FALSE}", DiagReps="{2}", NameOpts="{TRUE, FALSE}", HdrOpts="{FALSE}", AllowSame="TRUE",
              BlockRep="{FALSE}", Structural="TRUE", RichPos=1, TailFix="{FALSE}", TailSizes="{2}", MaxTailItems=1,
-             NEditVals=1, NSlices=1)
+             NEditVals=1, NSlices=1, FixPos='{"hdr", "first", "firstpar", "prefix", "last"}')
 OMEGA_PROFILES = {
     # all layouts of <= 2 records, the first from the full alphabets, one edit
-    "A": dict(_BASE),
+    "A": dict(_BASE, NSlices=6),
     # the rich record second; two edits; DIAGONAL(n) headers; sliced by seed
-    "B": dict(_BASE, RichPos=2, MaxEdits=2, HdrOpts="{TRUE, FALSE}", TailFix="{TRUE, FALSE}", TailSizes="{1, 2}", NSlices=48),
+    "B": dict(_BASE, RichPos=2, MaxEdits=2, NameOpts="{FALSE}", HdrOpts="{TRUE, FALSE}", TailFix="{TRUE, FALSE}", TailSizes="{1, 2}", MaxTailItems=2, NSlices=140),
     # $SIGMA records: value / fix edits only
-    "S": dict(_BASE, Structural="FALSE", MaxEtas=3, NSlices=1),
+    "S": dict(_BASE, Structural="FALSE", MaxEtas=3, NSlices=4),
     "TA": dict(_BASE, MaxRecs=2, MaxEtas=5, Sizes="{1, 2, 3}", BlockRep="{TRUE, FALSE}", HdrOpts="{TRUE, FALSE}",
                DiagReps="{2, 3}", NEditVals=2, TailFix="{TRUE, FALSE}", TailSizes="{1, 2}", NSlices=2),
     "TB": dict(_BASE, RichPos=2, MaxRecs=3, MaxEtas=5, MaxEdits=2, Sizes="{1, 2, 3}", TailSizes="{1, 2}", MaxTailItems=2, NSlices=40),
@@ -64,7 +64,7 @@ def diag_item_text(it) -> str:
 def block_header_text(rec) -> str:
     if rec["kind"] == "SAME":
         return ("BLOCK" if rec["bare"] else f"BLOCK({rec['size']})") + " SAME"
-    return f"BLOCK({rec['size']})" + (" FIX" if rec["fix"] else "") + SCALE_WORDS[rec["scale"]]
+    return f"BLOCK({rec['size']})" + (" FIX" if rec["fix"] and rec.get("fixpos", "hdr") == "hdr" else "") + SCALE_WORDS[rec["scale"]]
 
 
 def block_value_texts(rec):
@@ -74,6 +74,11 @@ def block_value_texts(rec):
     for i in range(1, rec["size"] + 1):
         for j in range(1, i + 1):
             s = num(rec["vals"][k])
+            fp = rec.get("fixpos", "hdr") if rec["fix"] else "hdr"
+            if k == 0 and fp in ("first", "firstpar", "prefix"):
+                s = {"first": f"{s} FIX", "firstpar": f"({s} FIX)", "prefix": f"(FIXED {s})"}[fp]
+            if k == len(rec["vals"]) - 1 and fp == "last":
+                s = f"{s} FIX"
             if i == j and rec["names"][i - 1]:
                 s += f" ; {rec['names'][i - 1]}"
             out.append(s)
@@ -406,9 +411,18 @@ def replay_omega(case):
 
 
 def stratum(c):
+    """coarse class of a case: record kinds / shapes and, per step, the edit with the features findings are keyed on"""
     def rk(r):
         if r["kind"] == "DIAG":
-            return ("D", r["hdr"], [(it["sd"], it["fix"], it["rep"], it["par"]) for it in r["items"]])
-        return (r["kind"], r["size"], r["scale"], r["fix"], r["bare"], r["rep"])
+            return ("D", len(r["items"]), any(it["rep"] > 1 for it in r["items"]))
+        return (r["kind"], r["size"], r["scale"] if r["kind"] == "BLOCK" else "", r.get("fixpos", "hdr") if r["fix"] else "")
 
-    return json.dumps([c["structural"], [rk(r) for r in c["recs"]], [s["edit"]["op"] for s in c["steps"]]])
+    def sk(s):
+        f = s["feat"]
+        return (s["edit"]["op"], f.get("src_kind"), f.get("scale") if f.get("src_kind") == "BLOCK" else "", f.get("in_repeat"),
+                f.get("fixed"), f.get("last_of_multi"), f.get("rec_has_repeat"), f.get("fixpos"),
+                # joins replace runs of records: keep the shapes apart (which etas, how many values the record has)
+                (s["edit"]["etas"], f.get("rec_items")) if s["edit"]["op"] == "Join" else None)
+
+    # one-edit cases: class = kinds of records + step class; longer sequences: the step classes only
+    return json.dumps([len(c["steps"]), c["structural"], bool(c.get("plain")), [sk(s) for s in c["steps"]]])
